@@ -333,6 +333,13 @@ def _finish_discriminators(schemas: dict, g: "Gate | None" = None) -> None:
         if not ok:
             node.pop("discriminator", None)
             continue
+        if g is not None and len({_cls(v).lower() for v in variants}) < len(variants):
+            # variants whose names derive to one class name (Foo.Bar / foo-bar): the unified discriminator enum gets duplicate members (C01-F18)
+            if "disc_union_colliding_variant_names" in g.exclude:
+                g.excluded["disc_union_colliding_variant_names"] += 1
+                node.pop("discriminator", None)
+                continue
+            g.used["disc_union_colliding_variant_names"] += 1
         if g is not None and "reserved_schema_name" in g.exclude and any(v in SUFFIXED_SCHEMA_NAMES for v in variants):
             # a discriminated union over a variant whose class name gets a reserved-name suffix (Email -> Email_): C01-F08
             g.excluded["reserved_schema_name"] += 1
@@ -352,6 +359,38 @@ def _finish_discriminators(schemas: dict, g: "Gate | None" = None) -> None:
             tgt.setdefault("required", [])
             if "kind" not in tgt["required"]:
                 tgt["required"].append("kind")
+
+
+def _separate_bare_union_names(schemas: dict, g: Gate) -> None:
+    """An inline oneOf/anyOf property is promoted under the BARE property name (User.userId -> alias UserId).  When a property of the
+    same name elsewhere in the document holds an inline object (at any depth, e.g. Item.code[].userId), that one is typed with the
+    alias as well and the modules import each other circularly (C01-F17).  With the finding open the union is replaced."""
+    unions: list[tuple[dict, str]] = []
+    objects: set[str] = set()
+
+    def walk(node):
+        if isinstance(node, dict):
+            for k, v in (node.get("properties") or {}).items() if isinstance(node.get("properties"), dict) else []:
+                if isinstance(v, dict) and ("oneOf" in v or "anyOf" in v):
+                    unions.append((node["properties"], k))
+                elif isinstance(v, dict) and (v.get("type") == "object" and "properties" in v):
+                    objects.add(_cls(k))
+                elif isinstance(v, dict) and v.get("type") == "array" and isinstance(v.get("items"), dict) and "properties" in v["items"]:
+                    objects.add(_cls(k))
+            for v in node.values():
+                walk(v)
+        elif isinstance(node, list):
+            for v in node:
+                walk(v)
+
+    walk(schemas)
+    for props, k in unions:
+        if _cls(k) in objects:
+            if "bare_union_name_clash" in g.exclude:
+                g.excluded["bare_union_name_clash"] += 1
+                props[k] = {"type": "string"}
+            else:
+                g.used["bare_union_name_clash"] += 1
 
 
 def _unrequire_self_refs(schemas: dict) -> None:
@@ -904,6 +943,7 @@ def specs(draw, gate: Gate | None = None, max_schemas: int = 5, max_ops: int = 4
         # a component object schema that is itself nullable (arrays / maps / properties referring to it may then hold null)
         if isinstance(node_, dict) and node_.get("type") == "object" and "properties" in node_ and g.flag(draw, "nullable_component", 1, 8):
             node_["nullable"] = True
+    _separate_bare_union_names(schemas, g)
     _finish_discriminators(schemas, g)
     _dedupe_allof_keys(schemas)
     _unrequire_self_refs(schemas)
